@@ -80,6 +80,10 @@ var funcTargets = []funcTarget{
 	{pkg: "internal", name: "Max"},
 	{pkg: "internal", recv: "StatusCode", name: "Bytes"},
 	{pkg: "internal", recv: "StatusCode", name: "Uint16"},
+	{pkg: "internal", recv: "Pointer", name: "IsNil"},
+	{pkg: "internal", recv: "Deque", name: "doRemove", skeleton: true, state: []string{"f_head", "f_tail", "f_length"}},
+	{pkg: "internal", recv: "Deque", name: "doPushBack", skeleton: true, state: []string{"f_head", "f_tail", "f_length"}},
+	{pkg: "internal", recv: "Deque", name: "doPushFront", skeleton: true, state: []string{"f_head", "f_tail", "f_length"}},
 	{pkg: "gws", name: "initServerOption", skeleton: true, recvParam: "c", state: []string{"f_ReadMaxPayloadSize", "f_ParallelGolimit", "f_ReadBufferSize", "f_WriteMaxPayloadSize", "f_WriteBufferSize", "f_HandshakeTimeout",
 		"f_PermessageDeflate_ServerMaxWindowBits", "f_PermessageDeflate_ClientMaxWindowBits", "f_PermessageDeflate_Threshold", "f_PermessageDeflate_Level", "f_PermessageDeflate_PoolSize"}},
 	{pkg: "gws", name: "initClientOption", skeleton: true, recvParam: "c", state: []string{"f_ReadMaxPayloadSize", "f_ParallelGolimit", "f_ReadBufferSize", "f_WriteMaxPayloadSize", "f_WriteBufferSize", "f_HandshakeTimeout",
@@ -390,6 +394,21 @@ func (t *ftr) expr(e ast.Expr) string {
 			}
 		}
 		if sel, ok := x.Fun.(*ast.SelectorExpr); ok {
+			// a translated method with a value receiver, applied to a field of the receiver: a call on the field's value
+			if p, ok := t.recvPath(sel.X); ok && p != "" && len(x.Args) == 0 && len(t.tgt.state) > 0 {
+				if selinfo, ok := t.info.Selections[sel]; ok {
+					rt := selinfo.Recv()
+					if named, ok := rt.(*types.Named); ok && named.Obj().Pkg() != nil {
+						pk := "gws"
+						if strings.HasSuffix(named.Obj().Pkg().Path(), "/internal") {
+							pk = "internal"
+						}
+						if g, ok := generated[pk+"."+named.Obj().Name()+"."+sel.Sel.Name]; ok && len(g.extras) == 0 {
+							return "(" + g.name + " " + t.expr(sel.X) + ")"
+						}
+					}
+				}
+			}
 			// a method of the receiver (or of something reachable from it) without arguments: an input of the function
 			if p, ok := t.recvPath(sel.X); ok && len(x.Args) == 0 && (p != "" || t.tgt.conds) {
 				name := "m_" + p + "_" + sel.Sel.Name
@@ -507,6 +526,9 @@ func (t *ftr) stmts(list []ast.Stmt, k string) string {
 	case *ast.ReturnStmt:
 		if len(t.tgt.state) > 0 {
 			if len(s.Results) == 0 {
+				if len(t.results) == 0 {
+					return t.tuple([]string{"0"})
+				}
 				return t.tuple(t.results)
 			}
 			var rs []string
@@ -657,6 +679,23 @@ func (t *ftr) stmts(list []ast.Stmt, k string) string {
 				}
 				return out
 			}
+			if len(s.Lhs) == len(s.Rhs) && len(t.tgt.state) > 0 && (s.Tok == token.ASSIGN || s.Tok == token.DEFINE) {
+				// a, b = x, y: simultaneous; components stored outside the tracked values are dropped
+				var names, vals []string
+				for i := range s.Lhs {
+					if nm, ok := t.lhsName(s.Lhs[i]); ok && nm != "v__" {
+						names = append(names, nm)
+						vals = append(vals, t.expr(s.Rhs[i]))
+					}
+				}
+				switch len(names) {
+				case 0:
+					return rest()
+				case 1:
+					return fmt.Sprintf("(let %s := %s in\n   %s)", names[0], vals[0], rest())
+				}
+				return fmt.Sprintf("(let '(%s) := (%s) in\n   %s)", strings.Join(names, ", "), strings.Join(vals, ", "), rest())
+			}
 			return t.fail("multiple assignment")
 		}
 		lname, ok := t.lhsName(s.Lhs[0])
@@ -712,6 +751,12 @@ func (t *ftr) stmts(list []ast.Stmt, k string) string {
 		for i := len(gd.Specs) - 1; i >= 0; i-- {
 			vs := gd.Specs[i].(*ast.ValueSpec)
 			if len(vs.Names) != 1 || len(vs.Values) != 1 {
+				if len(t.tgt.state) > 0 && len(vs.Names) == len(vs.Values) {
+					for j := len(vs.Names) - 1; j >= 0; j-- { // var a, b T = x, y (initialisers do not mention a, b)
+						out = fmt.Sprintf("(let v_%s := %s in\n   %s)", vs.Names[j].Name, t.expr(vs.Values[j]), out)
+					}
+					continue
+				}
 				if t.tgt.skeleton {
 					continue
 				}
